@@ -64,6 +64,20 @@ Theorem rules_preserve_WT_partial : forall ss files lang bs lrs bs',
 Proof. exact rules_preserve_WT_partial_proof. Qed.
 Print Assumptions rules_preserve_WT_partial.
 
+(* array_to_append and map_to_index on an option of the shape FromAST derives (one argument, one
+   assignment of it to a path ending in the argument's type) return well-typed options: what
+   breaks WT is sharing, or an earlier rule that left another shape *)
+Theorem array_to_append_preserves_WT_on_derived_options : forall ss root base o a first os effs,
+  derived_shape o a first -> lopt_wt ss root o = true -> array_to_append_action base o = Ok (os, effs) ->
+  forallb (lopt_wt ss root) os = true.
+Proof. exact array_to_append_derived_wt. Qed.
+Print Assumptions array_to_append_preserves_WT_on_derived_options.
+Theorem map_to_index_preserves_WT_on_derived_options : forall ss root base o a first os effs,
+  derived_shape o a first -> lopt_wt ss root o = true -> map_to_index_action base o = Ok (os, effs) ->
+  forallb (lopt_wt ss root) os = true.
+Proof. exact map_to_index_derived_wt. Qed.
+Print Assumptions map_to_index_preserves_WT_on_derived_options.
+
 (* Builder.MakePath (initialize, merge_into, compose, add_option, add_assignment): a returned
    path is a chain of existing fields with the recorded types, and uses no argument *)
 Theorem make_path_is_well_typed : forall ss bs b s p,
@@ -97,6 +111,14 @@ Theorem unselected_unchanged_partial : forall ss files lang bs lrs lbs' b kept,
   exists b', In b' lbs' /\ lsame_but_options b b' /\ forall o, In o kept -> In o (lb_options b').
 Proof. exact unselected_unchanged_partial_proof. Qed.
 Print Assumptions unselected_unchanged_partial.
+
+(* the same, as the statement refuted above plus its side condition: without interference the
+   frame checker the correspondence evaluates on cog's output holds of the model's output *)
+Theorem unselected_unchanged_partial_checker : forall ss files lang bs lrs bs',
+  rewriter_from files = Ok lrs -> apply_to ss files lang bs = Ok bs' -> interference ss files lang bs = false ->
+  frame_ok ss lrs lang bs bs' = true.
+Proof. exact unselected_unchanged_checker_proof. Qed.
+Print Assumptions unselected_unchanged_partial_checker.
 
 (* every single builder rule (all ten, any parameters), unconditionally: an unselected builder
    is in the result, identical *)
